@@ -383,6 +383,10 @@ def parseMStep (rbuf : Nat) (s : String) : Option MOp :=
       | ["N", a, b] =>   -- `j = 1`: a sink that never accepts anything (the harness rejects it too)
         if (parseNat? a).isSome ∧ (parseNat? b).isSome ∧ parseNat? b ≠ some 1 then some (.newW k) else none
       | ["D"] => some (.drop k)
+      -- dropped while the thread is unwinding from a panic (by the unwinding itself / by a scope guard's destructor): the property
+      -- promises the same as for any other drop, so the model's operation is `drop`
+      | ["DU"] => some (.drop k)
+      | ["DG"] => some (.drop k)
       | ["MV"] => some (.move k)
       | ["LK"] => some (.leak k)
       | ["RS"] => some (.read k (.read .str))
